@@ -25,6 +25,7 @@
   (outside `Unambiguous`, inside `UnambiguousRelaxed`).
 -/
 import Resolved.Proofs.ZoneTextSpecReject
+import Resolved.Proofs.MiscZoneText
 
 namespace Resolved
 
@@ -425,5 +426,175 @@ theorem C11_record_rejected (dst : ZTSpec.DenoteState) (st : DState) (hrel : StR
     (hle : LineEnd eol tailE rest) :
     ∃ e', loopStep st (ZTSpec.renderLine lv eol (.record r) ++ tailE ++ rest) = some (.stop (.error e')) :=
   record_err_step dst st hrel r hok e hden hnb lv hk1 eol heol hc tailE rest hle
+
+end Resolved
+
+/-! ## a comment may follow a token directly
+
+`tok;comment` is read exactly like `tok ;comment`: `;` needs no blank before it.  In the tokeniser's
+state machine: in `unquotedString`, `;` pushes the token and enters `skipToEndOfComment`, which is what
+a blank (push, `initial`) followed by `;` does; in `initial` (between tokens, in particular right after
+the closing quote of a quoted token) a blank changes nothing.
+
+`mx_TokAt pre rtoks rstr roct st lc` (Proofs/MiscZoneText.lean): after reading `pre` from the start of
+an entry, whatever follows, the tokeniser stands in state `st` with finished tokens `rtoks` and the token
+under construction `rstr` / `roct` (`mx_TokAt_nil`: the start of the entry; `mx_TokAt.append`
+composes).  "Plain token characters" are `plainUnq` / `plainInit` / `plainQ` of
+Proofs/ZoneTextOctets.lean; `ZTSpec.renderToken` covers every rendering (escapes, quoted). -/
+
+namespace Resolved
+
+open ZoneText IpText Gen
+
+/-- **the state-machine fact**: in the initial or the unquoted-string state, `;` and ` ;` lead to the
+    same configuration — for any accumulators, inside or outside parentheses, whatever follows. -/
+theorem C11_comment_directly_after_token_loop (st : TState) (hst : st = .initial ∨ st = .unquotedString)
+    (cs : List Char) (rtoks : List Token) (rstr : List Char) (roct : List UInt8) (lc : Bool) :
+    tokLoop 0 (';' :: cs) rtoks rstr roct st lc = tokLoop 0 (' ' :: ';' :: cs) rtoks rstr roct st lc :=
+  mx_glue st hst cs rtoks rstr roct lc
+
+/-- **gluing the comment onto an unquoted token changes nothing.**  `pre` is what precedes the token
+    in the entry; the tokeniser is there in its unquoted-string state (the token continues one already
+    begun) or in its initial state (then the token's first char must be able to begin a token:
+    not `(`, `)`, `"`); `tok` is a non-empty run of plain token characters.  The comment text `c` and
+    what follows are arbitrary (`c` need not even be free of line feeds). -/
+theorem C11_comment_directly_after_token (pre tok c rest : List Char) (rtoks : List Token)
+    (rstr : List Char) (roct : List UInt8) (st : TState) (lc : Bool)
+    (hpre : mx_TokAt pre rtoks rstr roct st lc)
+    (hst : st = .unquotedString ∨ (st = .initial ∧ ∀ h ∈ tok.head?, plainInit h = true))
+    (hne : tok ≠ []) (hplain : tok.all plainUnq = true) :
+    tokeniseEntry (pre ++ tok ++ [';'] ++ c ++ ['\n'] ++ rest)
+      = tokeniseEntry (pre ++ tok ++ [' '] ++ [';'] ++ c ++ ['\n'] ++ rest) := by
+  have hat : mx_TokAt (pre ++ tok) rtoks (tok.reverse ++ rstr) ((tok.map charAsU8).reverse ++ roct)
+      .unquotedString lc := by
+    rcases hst with h | ⟨h, hh⟩
+    · subst h
+      exact hpre.append (fun tail => mx_plain_unquoted tok hplain tail _ _ _ _)
+    · subst h
+      cases tok with
+      | nil => exact absurd rfl hne
+      | cons a as =>
+        simp only [List.all_cons, Bool.and_eq_true] at hplain
+        exact hpre.append (fun tail => mx_plain_initial a as (hh a (by simp)) hplain.2 tail _ _ _ _)
+  have e1 : pre ++ tok ++ [';'] ++ c ++ ['\n'] ++ rest = (pre ++ tok) ++ ';' :: (c ++ '\n' :: rest) := by simp
+  have e2 : pre ++ tok ++ [' '] ++ [';'] ++ c ++ ['\n'] ++ rest
+      = (pre ++ tok) ++ ' ' :: ';' :: (c ++ '\n' :: rest) := by simp
+  rw [e1, e2, hat, hat]
+  exact mx_glue_unquoted _ _ _ _ _
+
+/-- what both readings are, outside parentheses with a one-line comment: the token is finished with
+    exactly its chars, the comment is dropped, the entry ends at the line feed. -/
+theorem C11_glued_comment_reading (pre tok c rest : List Char) (rtoks : List Token)
+    (rstr : List Char) (roct : List UInt8)
+    (hpre : mx_TokAt pre rtoks rstr roct .unquotedString false)
+    (hplain : tok.all plainUnq = true) (hc : '\n' ∉ c) :
+    tokeniseEntry (pre ++ tok ++ [';'] ++ c ++ ['\n'] ++ rest)
+      = .ok ((pushNonEmpty rtoks (tok.reverse ++ rstr) ((tok.map charAsU8).reverse ++ roct)).reverse, rest) := by
+  have hat := hpre.append (fun tail => mx_plain_unquoted tok hplain tail rtoks rstr roct false)
+  have e1 : pre ++ tok ++ [';'] ++ c ++ ['\n'] ++ rest = (pre ++ tok) ++ (';' :: c ++ '\n' :: rest) := by simp
+  rw [e1, hat]
+  exact mx_glued_comment_ends_entry c hc rest _ _ _
+
+/-- **every rendering of a token** (`ZTSpec.renderToken`: unquoted or quoted, bare / `\X` / `\DDD`
+    octets in any mixture) standing between tokens: the comment may be glued onto it.  For a quoted
+    token this is `"…";comment`. -/
+theorem C11_comment_directly_after_rendered_token (tv : ZTSpec.TokVar) (atoms : List ZTSpec.Atom)
+    (hs : ∀ a ∈ atoms, StructuralOk a) (pre c rest : List Char) (rtoks : List Token) (lc : Bool)
+    (hpre : mx_TokAt pre rtoks [] [] .initial lc) :
+    tokeniseEntry (pre ++ ZTSpec.renderToken tv atoms ++ [';'] ++ c ++ ['\n'] ++ rest)
+      = tokeniseEntry (pre ++ ZTSpec.renderToken tv atoms ++ [' '] ++ [';'] ++ c ++ ['\n'] ++ rest) := by
+  have e1 : pre ++ ZTSpec.renderToken tv atoms ++ [';'] ++ c ++ ['\n'] ++ rest
+      = pre ++ (ZTSpec.renderToken tv atoms ++ ';' :: (c ++ '\n' :: rest)) := by simp
+  have e2 : pre ++ ZTSpec.renderToken tv atoms ++ [' '] ++ [';'] ++ c ++ ['\n'] ++ rest
+      = pre ++ (ZTSpec.renderToken tv atoms ++ ' ' :: ';' :: (c ++ '\n' :: rest)) := by simp
+  rw [e1, e2, hpre, hpre]
+  by_cases hq : tv.quoted = true ∨ atoms = []
+  · rw [tokLoop_renderToken_quoted tv atoms hq hs, tokLoop_renderToken_quoted tv atoms hq hs]
+    exact mx_glue_initial _ _ _ _ _
+  · have hq1 : tv.quoted = false := by
+      cases h : tv.quoted with
+      | false => rfl
+      | true => exact absurd (Or.inl h) hq
+    have hne : atoms ≠ [] := fun h => hq (Or.inr h)
+    rw [tokLoop_renderToken_unquoted tv atoms hq1 hne hs, tokLoop_renderToken_unquoted tv atoms hq1 hne hs]
+    exact mx_glue_unquoted _ _ _ _ _
+
+/-- **the quoted case** on raw text: `"body"` of plain quoted characters standing between tokens,
+    immediately followed by `;`. -/
+theorem C11_comment_directly_after_quoted (pre body c rest : List Char) (rtoks : List Token) (lc : Bool)
+    (hpre : mx_TokAt pre rtoks [] [] .initial lc) (hbody : body.all plainQ = true) :
+    tokeniseEntry (pre ++ ['"'] ++ body ++ ['"'] ++ [';'] ++ c ++ ['\n'] ++ rest)
+      = tokeniseEntry (pre ++ ['"'] ++ body ++ ['"'] ++ [' '] ++ [';'] ++ c ++ ['\n'] ++ rest) := by
+  have e1 : pre ++ ['"'] ++ body ++ ['"'] ++ [';'] ++ c ++ ['\n'] ++ rest
+      = pre ++ ('"' :: body ++ '"' :: (';' :: (c ++ '\n' :: rest))) := by simp
+  have e2 : pre ++ ['"'] ++ body ++ ['"'] ++ [' '] ++ [';'] ++ c ++ ['\n'] ++ rest
+      = pre ++ ('"' :: body ++ '"' :: (' ' :: ';' :: (c ++ '\n' :: rest))) := by simp
+  rw [e1, e2, hpre, hpre, mx_plain_quoted body hbody, mx_plain_quoted body hbody]
+  exact mx_glue_initial _ _ _ _ _
+
+/-- two texts with the same tokenisation of their first entry are the same to `parse_entry`. -/
+theorem C11_glued_comment_same_entry (s1 s2 : List Char) (h : tokeniseEntry s1 = tokeniseEntry s2)
+    (fuel : Nat) (o : Option Name) (pd : Option MaybeWildcard) (pt : Option Nat) :
+    parseEntry fuel o pd pt s1 = parseEntry fuel o pd pt s2 :=
+  mx_parseEntry_congr h fuel o pd pt
+
+/-- **the same zone**: two files in which the entry loop arrives with the same local state `st`
+    (`Reach`: anywhere in the file, after anything) in front of two texts `s1`, `s2` whose next entry
+    tokenises alike — e.g. `s1 = pre ++ tok ++ ";…"`, `s2 = pre ++ tok ++ " ;…"` by the theorems above —
+    have the same result: the same zone, or the same error. -/
+theorem C11_glued_comment_same_zone (data1 data2 s1 s2 : List Char) (st : DState)
+    (h1 : Reach data1 st s1) (h2 : Reach data2 st s2) (h : tokeniseEntry s1 = tokeniseEntry s2) :
+    deserialise data1 = deserialise data2 := by
+  unfold deserialise
+  rw [mx_deserialise_congr h1 h2 h]
+
+/-- … in particular when the glued comment stands in the first entry of the file. -/
+theorem C11_glued_comment_same_zone_first_entry (tok c rest : List Char) (hne : tok ≠ [])
+    (hhead : ∀ h ∈ tok.head?, plainInit h = true) (hplain : tok.all plainUnq = true) :
+    deserialise (tok ++ [';'] ++ c ++ ['\n'] ++ rest)
+      = deserialise (tok ++ [' '] ++ [';'] ++ c ++ ['\n'] ++ rest) := by
+  have h := C11_comment_directly_after_token [] tok c rest [] [] [] .initial false mx_TokAt_nil
+    (Or.inr ⟨rfl, hhead⟩) hne hplain
+  simp only [List.nil_append] at h
+  exact C11_glued_comment_same_zone _ _ _ _ {} .start .start h
+
+/-! ### non-vacuity
+
+`a;x⏎b` and `a ;x⏎b`; `"a";x⏎`; a position in the middle of an entry (`mx_TokAt` after `a `). -/
+
+example : tokeniseEntry ['a', ';', 'x', '\n', 'b'] = .ok ([(['a'], [97])], ['b']) ∧
+    tokeniseEntry ['a', ' ', ';', 'x', '\n', 'b'] = .ok ([(['a'], [97])], ['b']) := by
+  constructor <;> simp [tokeniseEntry, tokLoop, pushNonEmpty, isWhitespace, isAscii, charAsU8] <;> decide
+
+example : tokeniseEntry ['"', 'a', '"', ';', 'x', '\n'] = .ok ([(['a'], [97])], []) ∧
+    tokeniseEntry ['"', 'a', '"', ' ', ';', 'x', '\n'] = .ok ([(['a'], [97])], []) := by
+  constructor <;> simp [tokeniseEntry, tokLoop, pushNonEmpty, isWhitespace, isAscii, charAsU8] <;> decide
+
+/-- the hypotheses of `C11_comment_directly_after_token` hold after `a ` (one finished token, between
+    tokens) for the token `IN`. -/
+example : mx_TokAt ['a', ' '] [(['a'], [97])] [] [] .initial false ∧
+    (∀ h ∈ ['I', 'N'].head?, plainInit h = true) ∧ ['I', 'N'].all plainUnq = true := by
+  refine ⟨?_, by decide, by decide⟩
+  intro tail
+  simp [tokeniseEntry, tokLoop, pushNonEmpty, isWhitespace, isAscii, charAsU8]
+
+/-- a whole file: `$ORIGIN e.;x⏎` and `$ORIGIN e. ;x⏎` followed by the same record line. -/
+example :
+    deserialise (['$','O','R','I','G','I','N',' ','e','.'] ++ [';'] ++ ['x'] ++ ['\n'] ++ ['a',' ','5',' ','A',' ','1','.','2','.','3','.','4','\n'])
+      = deserialise (['$','O','R','I','G','I','N',' ','e','.'] ++ [' '] ++ [';'] ++ ['x'] ++ ['\n'] ++ ['a',' ','5',' ','A',' ','1','.','2','.','3','.','4','\n']) := by
+  have h := C11_comment_directly_after_token ['$','O','R','I','G','I','N',' '] ['e','.'] ['x']
+    ['a',' ','5',' ','A',' ','1','.','2','.','3','.','4','\n']
+    [(['$','O','R','I','G','I','N'], [36,79,82,73,71,73,78])] [] [] .initial false
+    (by intro tail
+        simp [tokeniseEntry, tokLoop, pushNonEmpty, isWhitespace, isAscii, charAsU8])
+    (Or.inr ⟨rfl, by decide⟩) (by simp) (by decide)
+  exact C11_glued_comment_same_zone _ _ _ _ {} .start .start (by simpa using h)
+
+/-- … and that file is accepted (a zone with `a.e. 5 A 1.2.3.4`), so the equation above is not one
+    between two errors. -/
+example :
+    (match deserialise (['$','O','R','I','G','I','N',' ','e','.'] ++ [';'] ++ ['x'] ++ ['\n'] ++ ['a',' ','5',' ','A',' ','1','.','2','.','3','.','4','\n']) with
+      | .ok z => z.soa.isNone && z.apex == Name.root
+      | _ => false) = true := by decide +kernel
 
 end Resolved
